@@ -78,6 +78,7 @@ def run(rep, tier, seed):
         if ok:
             rep.distinct(tuple(jd.script[5:]))
     rep.cov["crash_point_checks"] = total_checks
+    sessions.run_crash_continue(rep, "C14", rng, tier, "content")
     rep.cov["flush_calls"] = flushes
     rep.cov["traces_validated_against_impl"] = len(judged)
     rep.cov["distribution"] = sc.distribution(judged)
